@@ -2405,8 +2405,11 @@ class Evaluator:
         cls = None
         node = None
         selfterm = None
+        force = False
         if f[0] == "global" and f[2] == "func" and ":" in f[1]:
             modname, fname = f[1].split(":")
+            if fname.endswith("@reference"):
+                fname, force = fname[:-len("@reference")], True
             module = self.index.modules.get(modname)
             if module is None:
                 return None
@@ -2460,12 +2463,12 @@ class Evaluator:
             selfterm = f[1]
         else:
             return None
-        if fname in PINNED.get(modname, ()) or f"{modname}:{fname}" in OPAQUE:
+        if (fname in PINNED.get(modname, ()) and not force) or f"{modname}:{fname}" in OPAQUE:
             return None
         if "." in fname:
             # a method of a reference class that moved to another module is still that reference method
             from .index import Index as _Ix
-            cq_ = _Ix.canonical_qual(None, "class", f"{modname}:{fname.split('.')[0]}")
+            cq_ = _Ix.canonical_qual(self.index, "class", f"{modname}:{fname.split('.')[0]}")
             if cq_.split(":")[0] != modname and fname in PINNED.get(cq_.split(":")[0], ()):
                 return None
         decos = [ast.unparse(d) for d in node.decorator_list]
@@ -2475,7 +2478,7 @@ class Evaluator:
             selfterm = None
         elif cls is not None and selfterm is None:
             return None
-        return module, node, f"{modname}:{fname}", cls, selfterm
+        return module, node, f"{modname}:{fname}" + ("@reference" if force else ""), cls, selfterm
 
     def _prepare_inline(self, f, call_term):
         """Resolve, summarise and instantiate a helper call: -> (callee summary, inst(term), id map, qual) or None.
@@ -3115,12 +3118,18 @@ def sym_term(s: Sym) -> tuple:
         # a reference-tree function that moved to another module keeps the name the rules know it by
         mod, name = s.qual.split(":")
         homes = _HOME.get(name, [])
+        ix = getattr(s.module, "index", None)
+        if ix is not None and (mod, name) in ix.redirect:
+            # public view: the reference implementation itself, named from the implementation that replaced it
+            return ("global", f"{mod}:{name}@reference", s.kind)
         if len(homes) == 1 and homes[0] != mod and name not in PINNED.get(mod, ()):
-            return ("global", f"{homes[0]}:{name}", s.kind)
+            hm = ix.modules.get(homes[0]) if ix is not None else None
+            if hm is None or name not in hm.defs or ix.redirect.get((homes[0], name)) == (mod, name):
+                return ("global", f"{homes[0]}:{name}", s.kind)
     if s.kind in ("class", "assign") and ":" in s.qual:
         # likewise a class / a module-level table that moved
         from .index import Index as _Ix
-        return ("global", _Ix.canonical_qual(None, s.kind, s.qual), s.kind)
+        return ("global", _Ix.canonical_qual(getattr(s.module, "index", None), s.kind, s.qual), s.kind)
     return ("global", s.qual, s.kind)
 
 
